@@ -173,6 +173,10 @@ func ParseNDStream(r io.Reader, res chan<- Stream, reuse <-chan *ParsedJson) {
 				err = err2
 			}
 
+			if len(bytes.TrimSpace(tmp)) == 0 {
+				// Nothing but blank lines in this chunk; there is nothing to parse.
+				tmp = tmp[:0]
+			}
 			if len(tmp) > 0 {
 				result := make(chan Stream, 0)
 				queue <- result
